@@ -68,12 +68,12 @@ func buildTimeCodecs() *timeCodecs {
 	return tc
 }
 
-func timeSx(t time.Time) []sx {
+func timeTriple(t time.Time) []sx {
 	_, off := t.Zone()
 	return []sx{I(t.Unix()), I(int64(t.Nanosecond())), I(int64(off))}
 }
 
-func okTime(t time.Time) sx { return T("ok", timeSx(t)...) }
+func okTime(t time.Time) sx { return T("ok", timeTriple(t)...) }
 
 // guard converts a panic of one route into a (panic msg) outcome so that the other routes of the
 // same case are still reported.
@@ -180,7 +180,7 @@ func newExecTime() func(op string, args []sx) sx {
 				if err := (avrotime.DateCodec{}).Read(r, unsafe.Pointer(&t)); err != nil {
 					return errSx
 				}
-				return T("ok", append(timeSx(t), I(int64(r.Len())))...)
+				return T("ok", append(timeTriple(t), I(int64(r.Len())))...)
 			})
 			built := guard(func() sx {
 				var d recTime
@@ -188,7 +188,7 @@ func newExecTime() func(op string, args []sx) sx {
 				if err := tc.date.Read(r, unsafe.Pointer(&d)); err != nil {
 					return errSx
 				}
-				return T("ok", append(timeSx(d.T), I(int64(r.Len())))...)
+				return T("ok", append(timeTriple(d.T), I(int64(r.Len())))...)
 			})
 			return T("r", direct, built)
 		case "date-w": // (date-w unix nsec off)
@@ -216,7 +216,7 @@ func newExecTime() func(op string, args []sx) sx {
 				if err := c.Read(r, unsafe.Pointer(&d)); err != nil {
 					return errSx
 				}
-				return T("ok", append(timeSx(d.T), I(int64(r.Len())))...)
+				return T("ok", append(timeTriple(d.T), I(int64(r.Len())))...)
 			})
 		case "long-w": // (long-w rho unix nsec off)
 			c, ok := tc.long[a[0].atom]
